@@ -326,6 +326,14 @@ func c11Purity() *core.Space {
 	}
 }
 
+// c11ScenarioTime: wall-clock cap per scenario (a cap is reported as scenarios_capped, never a verdict)
+func c11ScenarioTime(bound int) time.Duration {
+	if bound >= 2 {
+		return 12 * time.Second
+	}
+	return 60 * time.Second
+}
+
 // (2) interleavings under the scheduler
 func c11Sched(bound, maxExec int, triples bool) *core.Space {
 	nC, nR := len(c11Configs), len(c11Reads)
@@ -357,6 +365,7 @@ func c11Sched(bound, maxExec int, triples bool) *core.Space {
 		Name:        name,
 		Size:        len(scens),
 		CaseTimeout: 120e9,
+		Chunk:       4, // small shards: the run's time budget is looked at between shards
 		Text: func(i int) string {
 			s := scens[i]
 			var names []string
@@ -373,7 +382,7 @@ func c11Sched(bound, maxExec int, triples bool) *core.Space {
 				c, o, _ := c11Configs[s.cfg].Build()
 				solo[k] = guarded(func() string { return c11Reads[r].Do(c, o) })
 			}
-			ex := &sched.Explorer{Bound: bound, MaxExec: maxExec, MaxTime: 75 * time.Second}
+			ex := &sched.Explorer{Bound: bound, MaxExec: maxExec, MaxTime: c11ScenarioTime(bound)}
 			var viol *core.Violation
 			var results []string
 			var before string
